@@ -28,21 +28,26 @@
 static int write_block_sizes(sqfs_meta_writer_t *ir,
 			     const sqfs_inode_generic_t *n)
 {
-	sqfs_u32 *sizes;
+	sqfs_u32 size;
 	size_t i;
+	int err;
 
-	if (n->payload_bytes_used < sizeof(sizes[0]))
+	if (n->payload_bytes_used < sizeof(size))
 		return 0;
 
-	if ((n->payload_bytes_used % sizeof(sizes[0])) != 0)
+	if ((n->payload_bytes_used % sizeof(size)) != 0)
 		return SQFS_ERROR_CORRUPTED;
 
-	sizes = alloca(n->payload_bytes_used);
+	/* the list can be many MiB for a large file, do not put it on the stack */
+	for (i = 0; i < (n->payload_bytes_used / sizeof(size)); ++i) {
+		size = htole32(n->extra[i]);
 
-	for (i = 0; i < (n->payload_bytes_used / sizeof(sizes[0])); ++i)
-		sizes[i] = htole32(n->extra[i]);
+		err = sqfs_meta_writer_append(ir, &size, sizeof(size));
+		if (err)
+			return err;
+	}
 
-	return sqfs_meta_writer_append(ir, sizes, n->payload_bytes_used);
+	return 0;
 }
 
 static int write_dir_index(sqfs_meta_writer_t *ir, const sqfs_u8 *data,
